@@ -51,12 +51,13 @@ Record state := mkSt {
   nextts : nat; nextc : nat;
   ndel : nat -> nat;                 (* ghost: how many times PyThreadState_Delete was applied to the id *)
   finalized : bool;
-  fatal : bool                       (* a Py_FatalError of the code would have fired *)
+  fatal : bool;                      (* a Py_FatalError of the code would have fired *)
+  dropped : nat -> bool              (* ghost: the canary of this thread state was deallocated while its thread was alive *)
 }.
 
 Definition init : state :=
   mkSt (fun _ => Alive) (fun _ => None) (fun _ => None) (fun _ => false) (fun _ => TsFree) (fun _ => CFree)
-       [] None 0 0 (fun _ => 0) false false.
+       [] None 0 0 (fun _ => 0) false false (fun _ => false).
 
 Definition upd {A} (f : nat -> A) (k : nat) (v : A) : nat -> A := fun k' => if Nat.eqb k' k then v else f k'.
 
@@ -67,7 +68,12 @@ Inductive event :=
 | EvMakeCanary          (* ... rest of thread_canary_register; the callback body starts *)
 | EvCbEnd (t : nat)     (* the callback returns (gil_release) *)
 | EvExit (t : nat)      (* thread t terminates: cffi_thread_shutdown *)
-| EvFinalize.           (* the interpreter clears and deletes every thread state (Py_Finalize) *)
+| EvFinalize            (* the interpreter clears and deletes every thread state (Py_Finalize) *)
+| EvDictDrop (t : nat). (* the canary of live thread t is deallocated under cffi's feet: some code holding the GIL
+                           clears t's thread-state dict / removes the "cffi.thread.canary" entry (what the header
+                           comment of misc_thread_common.h calls "other pieces of code which clear PyThreadStates
+                           under our feet": PyThreadState_Clear by Py_EndInterpreter / embedding code, or C-API users
+                           of PyThreadState_GetDict) while the thread lives on *)
 
 
 (* thread_canary_dealloc of canary c (must be CAlive): unlink, clear the tls back-pointer, free *)
@@ -93,13 +99,13 @@ Definition do_exit (s : state) (t : nat) : state :=
       | CAlive ts _ false =>
           mkSt (upd (thr s) t Exited) (gts s) (upd (tlsc s) t None) (incb s) (tss s)
                (upd (cans s) c (CAlive ts None true)) (zombies s ++ [c]) (reg s)
-               (nextts s) (nextc s) (ndel s) (finalized s) (fatal s)
+               (nextts s) (nextc s) (ndel s) (finalized s) (fatal s) (dropped s)
       | _ =>       (* "ThreadCanaryObj is already a zombie" / dangling local_thread_canary *)
           mkSt (upd (thr s) t Exited) (gts s) (upd (tlsc s) t None) (incb s) (tss s)
-               (cans s) (zombies s) (reg s) (nextts s) (nextc s) (ndel s) (finalized s) true
+               (cans s) (zombies s) (reg s) (nextts s) (nextc s) (ndel s) (finalized s) true (dropped s)
       end
   | _ => mkSt (upd (thr s) t Exited) (gts s) (upd (tlsc s) t None) (incb s) (tss s)
-              (cans s) (zombies s) (reg s) (nextts s) (nextc s) (ndel s) (finalized s) (fatal s)
+              (cans s) (zombies s) (reg s) (nextts s) (nextc s) (ndel s) (finalized s) (fatal s) (dropped s)
   end.
 
 Definition step_fn (s : state) (e : event) : option state :=
@@ -121,10 +127,10 @@ Definition step_fn (s : state) (e : event) : option state :=
               match tss s ts with
               | TsLive o k d =>
                   Some (mkSt (thr s) (gts s) (tlsc s) (upd (incb s) t true) (upd (tss s) ts (TsLive o (S k) d))
-                             (cans s) (zombies s) (reg s) (nextts s) (nextc s) (ndel s) false (fatal s))
+                             (cans s) (zombies s) (reg s) (nextts s) (nextc s) (ndel s) false (fatal s) (dropped s))
               | _ =>      (* the thread would run on a destroyed thread state *)
                   Some (mkSt (thr s) (gts s) (tlsc s) (incb s) (tss s) (cans s) (zombies s) (reg s)
-                             (nextts s) (nextc s) (ndel s) false true)
+                             (nextts s) (nextc s) (ndel s) false true (dropped s))
               end
           | None =>
               match reg s with
@@ -132,7 +138,7 @@ Definition step_fn (s : state) (e : event) : option state :=
               | None =>
                   let ts := nextts s in
                   Some (mkSt (thr s) (upd (gts s) t (Some ts)) (tlsc s) (incb s) (upd (tss s) ts (TsLive t 1 None))
-                             (cans s) (zombies s) (Some (t, Registering)) (S ts) (nextc s) (ndel s) false (fatal s))
+                             (cans s) (zombies s) (Some (t, Registering)) (S ts) (nextc s) (ndel s) false (fatal s) (dropped s))
               end
           end
       | _, _, _ => None
@@ -142,15 +148,15 @@ Definition step_fn (s : state) (e : event) : option state :=
       | Some (t, Registering) =>
           match zombies s with
           | [] => Some (mkSt (thr s) (gts s) (tlsc s) (incb s) (tss s) (cans s) [] (Some (t, MakeCanary))
-                             (nextts s) (nextc s) (ndel s) false (fatal s))
+                             (nextts s) (nextc s) (ndel s) false (fatal s) (dropped s))
           | c :: rest =>
               match cans s c with
               | CAlive ts tls _ =>
                   Some (mkSt (thr s) (gts s) (tlsc s) (incb s) (tss s) (upd (cans s) c (CAlive ts tls false)) rest
-                             (Some (t, Clearing c ts)) (nextts s) (nextc s) (ndel s) false (fatal s))
+                             (Some (t, Clearing c ts)) (nextts s) (nextc s) (ndel s) false (fatal s) (dropped s))
               | _ =>    (* the list links a freed canary *)
                   Some (mkSt (thr s) (gts s) (tlsc s) (incb s) (tss s) (cans s) rest (reg s)
-                             (nextts s) (nextc s) (ndel s) false true)
+                             (nextts s) (nextc s) (ndel s) false true (dropped s))
               end
           end
       | _ => None
@@ -163,10 +169,10 @@ Definition step_fn (s : state) (e : event) : option state :=
               let '(cans', z', tl') := match d with Some c' => dealloc c' (cans s) (zombies s) (tlsc s)
                                                   | None => (cans s, zombies s, tlsc s) end in
               Some (mkSt (thr s) (gts s) tl' (incb s) (upd (tss s) ts TsDeleted) cans' z' (Some (t, Registering))
-                         (nextts s) (nextc s) (upd (ndel s) ts (S (ndel s ts))) false (fatal s))
+                         (nextts s) (nextc s) (upd (ndel s) ts (S (ndel s ts))) false (fatal s) (dropped s))
           | _ =>        (* Clear/Delete of a destroyed thread state *)
               Some (mkSt (thr s) (gts s) (tlsc s) (incb s) (tss s) (cans s) (zombies s) (Some (t, Registering))
-                         (nextts s) (nextc s) (upd (ndel s) ts (S (ndel s ts))) false true)
+                         (nextts s) (nextc s) (upd (ndel s) ts (S (ndel s ts))) false true (dropped s))
           end
       | _ => None
       end
@@ -181,7 +187,7 @@ Definition step_fn (s : state) (e : event) : option state :=
                   Some (mkSt (thr s) (gts s) (upd (tlsc s) t (Some (Some c))) (upd (incb s) t true)
                              (upd (tss s) ts (TsLive o (S k) (Some c)))
                              (upd (cans s) c (CAlive ts (Some t) false)) (zombies s) None
-                             (nextts s) (S c) (ndel s) false (fatal s))
+                             (nextts s) (S c) (ndel s) false (fatal s) (dropped s))
               | _ => None
               end
           | None => None
@@ -194,12 +200,27 @@ Definition step_fn (s : state) (e : event) : option state :=
           match tss s ts with
           | TsLive o (S (S k)) d =>
               Some (mkSt (thr s) (gts s) (tlsc s) (upd (incb s) t false) (upd (tss s) ts (TsLive o (S k) d))
-                         (cans s) (zombies s) (reg s) (nextts s) (nextc s) (ndel s) false (fatal s))
+                         (cans s) (zombies s) (reg s) (nextts s) (nextc s) (ndel s) false (fatal s) (dropped s))
           | TsLive o _ d =>      (* counter reaches 0: PyGILState_Release destroys the thread state *)
               let '(cans', z', tl') := match d with Some c' => dealloc c' (cans s) (zombies s) (tlsc s)
                                                   | None => (cans s, zombies s, tlsc s) end in
               Some (mkSt (thr s) (upd (gts s) t None) tl' (upd (incb s) t false) (upd (tss s) ts TsDeleted)
-                         cans' z' (reg s) (nextts s) (nextc s) (upd (ndel s) ts (S (ndel s ts))) false (fatal s))
+                         cans' z' (reg s) (nextts s) (nextc s) (upd (ndel s) ts (S (ndel s ts))) false (fatal s) (dropped s))
+          | _ => None
+          end
+      | _, _, _ => None
+      end
+  | EvDictDrop t =>
+      match thr s t, reg s, gts s t with
+      | Alive, None, Some ts =>
+          match tss s ts with
+          | TsLive o k (Some c) =>
+              (* thread_canary_dealloc(c): unlink if zombie, clear tls->local_thread_canary, free.
+                 gilstate_counter keeps its extra +1: the thread state stays valid for t's later
+                 callbacks and is never destroyed by gil_release (it is leaked at thread exit). *)
+              let '(cans', z', tl') := dealloc c (cans s) (zombies s) (tlsc s) in
+              Some (mkSt (thr s) (gts s) tl' (incb s) (upd (tss s) ts (TsLive o k None)) cans' z' (reg s)
+                         (nextts s) (nextc s) (ndel s) false (fatal s) (upd (dropped s) ts true))
           | _ => None
           end
       | _, _, _ => None
@@ -217,7 +238,7 @@ Definition step_fn (s : state) (e : event) : option state :=
                      (fun c => match cans s c with CAlive _ _ _ => CFreed | x => x end)
                      [] None (nextts s) (nextc s)
                      (fun ts => match tss s ts with TsLive _ _ _ => S (ndel s ts) | _ => ndel s ts end)
-                     true (fatal s))
+                     true (fatal s) (dropped s))
       end
   end
   end.
@@ -241,7 +262,7 @@ Fixpoint sweep_all (fuel : nat) (s : state) : option state :=
       end
   end.
 
-Inductive mevent := MCb (t : nat) | MCbEnd (t : nat) | MExit (t : nat) | MFinalize.
+Inductive mevent := MCb (t : nat) | MCbEnd (t : nat) | MExit (t : nat) | MFinalize | MDrop (t : nat).
 
 Definition mstep (s : state) (e : mevent) : option state :=
   match e with
@@ -252,6 +273,7 @@ Definition mstep (s : state) (e : mevent) : option state :=
   | MCbEnd t => step_fn s (EvCbEnd t)
   | MExit t => step_fn s (EvExit t)
   | MFinalize => step_fn s EvFinalize
+  | MDrop t => step_fn s (EvDictDrop t)
   end.
 
 (* observation after a macro event, for threads < n:
@@ -276,12 +298,13 @@ Fixpoint mrun (n : nat) (s : state) (es : list mevent) : option (list (list nat)
   end.
 
 (* compact encoding for the harness: macro event = 16 * kind + thread, kind 0 MCb / 1 MCbEnd /
-   2 MExit / 3 MFinalize; observations compared through two fingerprints computed here *)
+   2 MExit / 3 MFinalize / 4 MDrop; observations compared through two fingerprints computed here *)
 Definition decode_mev (x : nat) : mevent :=
   match Nat.div x 16 with
   | 0 => MCb (Nat.modulo x 16)
   | 1 => MCbEnd (Nat.modulo x 16)
   | 2 => MExit (Nat.modulo x 16)
+  | 4 => MDrop (Nat.modulo x 16)
   | _ => MFinalize
   end.
 Definition fpn (m b : N) (l : list nat) : N :=
